@@ -28,7 +28,7 @@ Print Assumptions C03_accepted_credentials.
 Theorem C03_not_owner_is_noop : forall cfg s src tid c r uid s' acts,
   authenticate cfg s c = AuthOK uid ->
   (forall a, find_alloc src (allocs s) = Some a -> a_user a <> uid) ->
-  match r with RqAllocate _ _ _ _ _ | RqBinding => False | _ => True end ->
+  match r with RqAllocate _ _ _ _ _ _ _ _ | RqBinding => False | _ => True end ->
   step cfg s (EReq src tid c r false) = (s', acts) -> s' = s /\ acts = [].
 Proof. exact not_owner_is_noop. Qed.
 Print Assumptions C03_not_owner_is_noop.
